@@ -32,8 +32,10 @@ def run(ctx):
     ctx.do(D.rule_dr2)
     ctx.do(D.rule_dr3)
     ctx.do(D.rule_dr4)
+    ctx.do(D.rule_nan1)
     ctx.do(SI.rule_k4)
     ctx.do(CA.rule_der1, DR, "Drawing")
+    ctx.do(CA.rule_c2, "Drawing")
     ctx.do(u1, ENTRIES, min_functions=30)
     ctx.r.assume("that the path visits the vertices along geodesics (arc "
                  "reversal heuristic, radius threshold) needs values and is "
